@@ -349,7 +349,7 @@ class WSStream:
     async def _accept(self, message: WebsocketAcceptEvent) -> None:
         self.state = ASGIWebsocketState.CONNECTED
         status_code, headers, self.connection = self.handshake.accept(
-            message.get("subprotocol"), message.get("headers", [])
+            message.get("subprotocol"), build_and_validate_headers(message.get("headers", []))
         )
         await self.send(
             Response(stream_id=self.stream_id, status_code=status_code, headers=headers)
